@@ -7,6 +7,8 @@ import (
 	"encoding/json"
 	"fmt"
 	"math"
+	"os"
+	"path/filepath"
 	"runtime"
 	"strings"
 	"testing"
@@ -31,6 +33,7 @@ const (
 	c08AllocBase    = 2 << 20 // A: 2 MiB
 	c08AllocPerByte = 8 << 10 // B: 8 KiB per input byte
 	c08SlowSeconds  = 10.0
+	c08HangSeconds  = 90
 )
 
 // guarded runs f, measuring allocation and time.  Panics propagate (safeEval
@@ -44,7 +47,18 @@ func guardedLimit(name string, inputLen int, slow float64, o *Obs, f func()) err
 	var m0, m1 runtime.MemStats
 	runtime.ReadMemStats(&m0)
 	t0 := time.Now()
+	// watchdog: a call that does not come back cannot be judged after the fact.  After 90 s (inputs are
+	// at most a few kilobytes) the process reports a hang for the case being evaluated and exits; the
+	// driver turns that into a violation whose replay file is the saved current case.
+	wd := time.AfterFunc(c08HangSeconds*time.Second, func() {
+		if outDir != "" {
+			os.WriteFile(filepath.Join(outDir, "hang.txt"), []byte(fmt.Sprintf("%s did not return within %d s on an input of %d bytes", name, c08HangSeconds, inputLen)), 0o644)
+		}
+		fmt.Printf("HANG property=C08 %s did not return within %d s\n", name, c08HangSeconds)
+		os.Exit(3)
+	})
 	f()
+	wd.Stop()
 	dur := time.Since(t0).Seconds()
 	runtime.ReadMemStats(&m1)
 	alloc := m1.TotalAlloc - m0.TotalAlloc
